@@ -141,6 +141,8 @@ def build_conn(b, seed, params=None):
                 kw["pad_to"] = 1000 if b["zrtt"] else 1150
             if pk["t"] in ("I", "H", "Z") and p.get("len_width"):
                 kw["len_width"] = p["len_width"]
+            if p.get("grease_bit") and d == "s" and pk["t"] in ("H", "A") and rng.random() < 0.7:
+                kw["fixed"] = 0         # the client announced grease_quic_bit: the server may clear the QUIC bit (run with -g)
             if pk["t"] == "A":
                 kw["gen"] = pk["gen"]
                 if p.get("pn_gaps") and rng.random() < 0.4:
@@ -163,7 +165,9 @@ def build_conn(b, seed, params=None):
 
 def run_quic(b, seed, params=None, opts=(), flow=None, trace=False, extra_dgrams=()):
     c, payload = build_conn(b, seed, params)
-    fl = flow or mk_flow(0, ipv=(params or {}).get("ipv", 4), sport=(params or {}).get("sport", 443))
+    fl = flow or mk_flow(0, ipv=(params or {}).get("ipv", 4), sport=(params or {}).get("sport", 443),
+                         cport=((params or {}).get("sport", 443) if (params or {}).get("same_ports") and (params or {}).get("sport", 443) not in (443, 44330) else None))
+    # (both endpoints may use the same port number -- unless it is a watched server port: then the ports cannot tell who the server is)
     if (params or {}).get("dup_dgrams"):        # the network (or a capture on two interfaces) duplicates datagrams byte for byte
         rng = random.Random(seed + 99)
         out = []
